@@ -367,7 +367,20 @@ func run(c *fw.Case) {
 			}
 		}
 
+		t0 := time.Now()
 		o, hungAt := execute(job(decoded), firstTimeout)
+		if d := time.Since(t0); d > 100*time.Millisecond {
+			c.Count("requests_slower_than_100ms", 1)
+			why := "?"
+			if o != nil && o.err != nil {
+				why = o.rejectedAt + ": " + fw.NormalizeMsg(o.err.Error())
+			} else if o != nil {
+				why = fmt.Sprintf("tier%d accepted/panic", tier)
+			}
+			c.Logf("slow request: %s %s", d, why)
+			c.Distinct("slow_request_outcomes", why)
+		}
+		c.Max("slowest_request_ms", time.Since(t0).Milliseconds())
 		if o == nil {
 			if hungStages[hungAt] && confirmedHangs >= 2 {
 				c.Count("skipped_after_confirmed_hangs", 1)
